@@ -92,7 +92,7 @@ CLAIMS = {
         'checks it computes the same value the host received, and converts the final value. Lean theorems: conversion_table_to_lua / conversion_table_to_reply (every row of the '
         'documented table), roundtrip_reply (a reply handed to a script and returned comes back unchanged), luaToArg_spec (only strings and numbers), noscript_refused (exactly the 17 flagged '
         'commands), eval_numkeys_validation, cache_agreement (LOAD/EXISTS/FLUSH/EVALSHA agree), hint_codec_roundtrip.',
-        note=NOTE + 'lupa is not installed: harness/lupa_standin (a Lua-subset interpreter) is part of the trusted base; SHA-1 is external (passed as a hint); EVAL queued inside MULTI is not modelled.',
+        note=NOTE + 'lupa is not installed: harness/lupa_standin (a Lua-subset interpreter) is part of the trusted base; SHA-1 is external (passed as a hint).',
         technique='Lean 4 theorems on the script bridge (conversion tables, cache, gates) + trace correspondence on a stand-in Lua host', design='7 C19'),
  'C20': dict(text='Lean theorems: outage_no_effect (while disconnected every write raises ConnectionError and the state is unchanged), reconnect_restores, closed_socket_forgotten (after close and the clean-up run by the '
         'next command of any client the connection is in no subscriber set, has no watches and PUBLISH never delivers to it), gc_equivalent_to_close, cleanup_idempotent_for_others, '
@@ -160,8 +160,8 @@ EXTRA4 = {
 EXTRA5 = {
  'C03': 'Score arithmetic is proved, not only validated (FR.Props.C18a, see C18): ZINCRBY / ZADD INCR store the correctly rounded sum, SCORE_NAN exactly for inf + -inf; the ZUNIONSTORE score formula is the rounded product / sum with NaN->0 only for inf*0 and inf-inf. ',
  'C04': 'Round 5 (FR.Props.C04k, 47 theorems, after fix F37): the queue invariant TxWf (no (P)SUBSCRIBE/(P)UNSUBSCRIBE, no EXEC/DISCARD/MULTI/WATCH, only known names in any transaction queue) holds in every reachable state; '
-        'processCommand_crash_only_exec_of_script / processCommand_never_crashes / event_never_crashes / reachable_conn_alive: no request of any history kills a connection or raises anything but the emulated ConnectionError (the only exclusion is the '
-        'model gap EVAL-inside-MULTI, shown by a kernel-checked witness); reply counts: exactly one reply for unknown / wrong-arity / queued / refused / executed commands, one per argument for (P)SUBSCRIBE, max(1, subscriptions) for an empty (P)UNSUBSCRIBE, 0 or 1 for a blocking pop; '
+        'processCommand_never_crashes / unconditional_no_crash / event_never_crashes / reachable_conn_alive: no request of any history kills a connection or raises anything but the emulated ConnectionError - without exclusions since script commands queued inside MULTI are modelled (FR.Props.C19m); '
+        'reply counts: exactly one reply for unknown / wrong-arity / queued / refused / executed commands, one per argument for (P)SUBSCRIBE, max(1, subscriptions) for an empty (P)UNSUBSCRIBE, 0 or 1 for a blocking pop; '
         'subscribe_in_multi_refused, exec_after_refusal_aborts; the chunking theorems without aliveness hypotheses on reachable states. Bridge: notInMulti_eq (the refused list is extracted from _process_command). ',
  'C05': 'Round 5: refused_in_multi(_eq) - the four pub/sub commands inside MULTI are answered with the fixed error, poison the transaction and queue nothing; db matrix also in C05 (fresh databases created inside EXEC carry the clock). ',
  'C08': 'Round 5, tie (a) for the modelling decision "an error carries no state": tools/gen_purity.py runs a forward abstract interpretation over the AST of all 139 command bodies on every check (no raise / raising call can execute after the body changed a CommandItem, a stored container, '
@@ -176,13 +176,16 @@ EXTRA5 = {
         'Redis stringmatchlen accepts), compile_never_fails (the text is always a well-formed regex of the fragment), lexical facts (every special byte is escaped or structural; no escape forms a class shorthand or back-reference). What stays trusted shrinks to: CPython re implements textbook semantics on this fragment. ',
  'C18': 'Round 5 (FR.Props.C18a, 80 theorems): the soft-float arithmetic IS IEEE-754 binary64 round-to-nearest-even: a model-independent definition IsRNE of the correctly rounded result, RN is the unique function satisfying it (nearest, half-ulp, ties-to-even, overflow at 2^1024-2^970, underflow at 2^-1075), '
         'add_correctly_rounded / mul_correctly_rounded for all finite operands, signed-zero rules, NaN exactly for inf-inf / inf*0, commutativity, order = order of the values, bit codec round trip, ofInt, truncation; INCRBYFLOAT / HINCRBYFLOAT / ZINCRBY reply and store the correctly rounded sum or refuse. ',
+ 'C19': 'Round 5 (FR.Props.C19m, 27 theorems): script commands queued inside MULTI are part of the model: runInner_eq_runCommand_all (EXEC runs every queued command, scripts included, exactly like the direct request), exec_eq_sequential_with_scripts, '
+        'exec_event_sequential / exec_event_dbs (the whole EXEC incl. the scripts and their redis.calls is one event whose effect is the sequential composition of the direct runs), errors before a script starts (NOSCRIPT, numkeys) are that element of the EXEC array and change nothing, '
+        'exec_inner_eval_returns; generated and compared against the code in every C19 run (plan_scripts_tx). ',
  'C20': 'Round 5: locks_sync_disciplined covers close() (lock-free by design, benign access listed) and the reaper loop. ',
 }
 for _k, _v in list(EXTRA4.items()) + list(EXTRA5.items()):
     EXTRA[_k] = EXTRA.get(_k, '') + _v
 
 NOTE_FIX = {
- 'C04': 'The generator-based Python parser is tied by chunked sends. EVAL queued inside MULTI is not modelled (the model marks it as a fault; not generated): the no-crash theorems exclude exactly that EXEC. ',
+ 'C04': 'The generator-based Python parser is tied by chunked sends. ',
 }
 
 PENDING = 'check under construction in this round'
